@@ -19,7 +19,25 @@ The property (this record is all you are told about what is being verified):
 """
 if kind == "s":
     kind_label = "s"
-if kind == "d":
+if kind == "e":
+    body = f"""
+TASK: produce 3 independent changes to the library source ({wt}/joblib/**, never the tests) that each BREAK this property while the package still imports and the existing test-suite still passes.
+
+Each change must
+ * be realistic: it must look like a plausible clean-up / optimisation / bug-fix slip that a maintainer could merge; no comment or name may give it away;
+ * need something SPECIFIC to manifest - a particular interleaving, a crash or fault at a particular point, a multi-step sequence of operations, an unusual input or configuration - not something ordinary use (or the existing tests) exposes at once;
+ * follow this round's style (one of each):
+     change 1: a REFACTORING THAT IS ALMOST BEHAVIOUR-PRESERVING - extract a helper / inline one, hoist an expression or an attribute read into a local (so that it is read EARLIER than before: before a lock is taken, before a call that changes it, once instead of per iteration), merge two guards, turn early returns into a result variable, move a statement out of (or into) a `with`/`try`/loop, replace a loop by a comprehension ... - where exactly one path, ordering or evaluation time is no longer the same and that breaks the property. It must read like a pure clean-up;
+     change 2: an ERROR-PATH / LIFECYCLE slip: something that is released, reset, flushed, unregistered, re-raised or restored on the normal path but no longer on an exceptional / early-exit / retry / second-use path (or the other way round), in a function that is NOT the most obvious one of the mechanism;
+     change 3: a BOUNDARY or STATE-CONFUSION slip: an off-by-one at a size / count boundary, an empty or singleton input, `<` vs `<=`, a flag or counter that has a close sibling (`_aborted`/`_aborting`, `n_dispatched_tasks`/`n_dispatched_batches`, `offset`/`_pos` ...) consulted or updated instead of the right one - on a path the tests do not reach.
+
+Deliver for change K (K=1,2,3) the directory {out}/{pid}-e-K/ containing
+ * patch.diff  - `git diff` taken in {wt}; must apply with `git apply` to the clean HEAD of the worktree;
+ * demo.py     - a small deterministic program: exit code 0 when the property holds (clean tree), non-zero when it is broken (with your change). Force the needed interleaving / crash / fault with monkeypatching, threading.Event, fault injection, subprocesses - no sleeping-and-hoping. Must finish in < 60 s. It is run as `cd <tree> && PYTHONPATH=<tree> /venv/bin/python demo.py` so it must import joblib from the current directory;
+ * notes.md    - first line: `{pid}-e-K: <one-line summary>`; then what you changed, why it breaks the property, what it needs to manifest, which test modules you ran and their result.
+Verify yourself, for each change: (1) demo exits 0 on the clean tree (save your diff with `git diff > file`, `git checkout -- .`, run, `git apply file` - never `git stash`), (2) demo exits non-zero with the change, (3) the test modules that exercise the files you touched pass with the change: `cd {wt} && timeout 1700 /venv/bin/python -m pytest -q -p no:cacheprovider --basetemp={wt}/.bt --timeout=600 joblib/test/test_<module>.py` (test_parallel.py takes a few minutes). A change that makes an existing test fail is useless - rework it.
+Reset the worktree (`git checkout -- . && git clean -fdq -e .bt`) after each change. Finish with a short report: the ids delivered, one line each."""
+elif kind == "d":
     body = f"""
 TASK: produce 3 independent changes to the library source ({wt}/joblib/**, never the tests) that each BREAK this property while the package still imports and the existing test-suite still passes.
 
